@@ -45,6 +45,17 @@ registry! {
     #[cfg(feature = "weak-ptrs")]
     h_count::h_weak_kernel,
     h_count::h_count_twin,
+    #[cfg(feature = "cleaners")]
+    h_clean::h_clean_n2,
+    #[cfg(feature = "cleaners")]
+    h_clean::h_clean_n2_a3,
+    #[cfg(feature = "cleaners")]
+    h_clean::h_clean_twin,
+    h_layout::h_layout_grid,
+    h_layout::h_layout_zst,
+    h_layout::h_forward_ints,
+    h_layout::h_forward_f64,
+    h_layout::h_layout_twin,
     h_trace::h_finalize_forwarding,
     h_trace::h_trace_array0,
     h_trace::h_trace_array1,
